@@ -199,6 +199,7 @@ func main() {
 	grab("postM")
 
 	var evals, skipped int64
+	unknownLength := false // the body length is not announced (chunked transfer): ContentLength -1
 	run := func(v valid, fs []fault, hOutcome string) {
 		evals++
 		called = 0
@@ -230,6 +231,10 @@ func main() {
 		}
 		if body != nil {
 			r.Body = io.NopCloser(body)
+			if unknownLength && r.ContentLength > 0 {
+				r.ContentLength = -1
+				names = append(names, "body length not announced")
+			}
 		} else {
 			r.Body = http.NoBody
 		}
@@ -541,6 +546,18 @@ func main() {
 			for _, ho := range outs {
 				run(v, []fault{f}, ho)
 			}
+		}
+		// the same faults when the length of the body is not announced: every fault that does not
+		// itself concern the body bytes or their length
+		if len(v.body) > 0 {
+			unknownLength = true
+			run(v, nil, "ok")
+			for _, f := range faults {
+				if f.pos != "body" {
+					run(v, []fault{f}, "ok")
+				}
+			}
+			unknownLength = false
 		}
 		if thorough {
 			for i, a := range faults {
